@@ -153,12 +153,9 @@ func (g *Global) LLString() string {
 	if g.Comdat != nil {
 		// The comdat name is omitted when it is the name of the global variable itself
 		// (the name, not its display form: Name() returns all-digit names in
-		// quotes); the parser reads a bare `comdat` the same way.
-		implicit := g.GlobalName
-		if g.IsUnnamed() {
-			implicit = g.Name()
-		}
-		if g.Comdat.Name == implicit {
+		// quotes). An unnamed global variable has no implicit comdat (LLVM: "comdat
+		// cannot be unnamed"), its comdat is always spelled out.
+		if !g.IsUnnamed() && g.Comdat.Name == g.GlobalName {
 			buf.WriteString(", comdat")
 		} else {
 			fmt.Fprintf(buf, ", %s", g.Comdat)
